@@ -16,6 +16,8 @@ import XotModel.Lemmas.ArenaTraverse
 import XotModel.Lemmas.ArenaRevTraverse
 import XotModel.Lemmas.ArenaPred
 import XotModel.Model.ValueAccess
+import XotModel.Lemmas.AxesChildLists
+import XotModel.Lemmas.FparseHistStep
 import XotModel.Lemmas.ReachAxes
 import XotModel.Lemmas.ReachHist
 import XotModel.Lemmas.FinvTrav
@@ -589,6 +591,481 @@ example : Arena.reverseTraverse Arena.sampleB ⟨1, 0⟩ 9 =
     Arena.reverseTraverse Arena.sampleB ⟨2, 0⟩ 3 =
       .done Arena.sampleB [.end ⟨2, 0⟩, .end ⟨4, 0⟩, .start ⟨4, 0⟩] := by
   decide
+
+end XotModel.Props
+
+/-! # ================================================================================================
+    # CHILD-LIST ACCESSORS; the remaining restatements for reachable trees; FULL histories (wt-c07gaps)
+    # ================================================================================================
+
+  (1) The accessors that hand out the nodes of ONE raw child list — `all_children`, `abnormal_children`
+  (access.rs, `pub(crate)`), `namespaces(node).nodes()`, `attributes(node).nodes()` (nodemap/),
+  `attribute_nodes`, `children` — as the `take_while` / `skip_while` code the crate has
+  (Model/AxesChildLists.lean, Model/Axes.lean; suite `axes` asks for all of them at every node).
+  (2) The theorems of this file that take `wf` / `kidsSorted` and had no restatement for reachable trees.
+  (3) Every `C07_reachable_*` theorem once more over FULL histories (`PCall`, Model/FparseHist.lean: `parse` /
+  `parse_fragment` of ARBITRARY texts — accepted or rejected — interleaved with the extended API calls of
+  `Forest.XCall`), suffix `_full`: the trees that enter the store through the parser are covered, whatever is
+  done to them afterwards.  All of it rests on one forest-level fact, `C07_inv_wf`: the erasure of every
+  parentless tree of a forest with `Forest.Inv` satisfies both structural hypotheses. -/
+
+namespace XotModel.Props
+open XotModel XotModel.Axes
+
+/-- Both structural hypotheses of this file hold of every parentless tree of every forest with the
+    invariant of C04 (`Forest.Inv`): `wf`, and `kidsSorted` at EVERY node. -/
+theorem C07_inv_wf (f : Forest) (hi : f.Inv) :
+    ∀ r ∈ f.roots, wf r.erase = true ∧ ∀ p : Path, kidsSorted (subAt r.erase p).kids :=
+  fun _ hr => ⟨Reach.wf_root hi hr, Reach.kidsSorted_root hi hr⟩
+
+/-! ## The child-list accessors -/
+
+/-- On EVERY tree (ill-ordered ones included), at every node: `all_children` is the raw child list — the
+    nodes whose parent is `p`, in document order, no node twice; it is `abnormal_children` followed by
+    `children` (`take_while` / `skip_while` of one predicate); `attributes(node).nodes()` is
+    `attribute_nodes(node)`; namespace nodes followed by attribute nodes are a PREFIX of it; and whatever
+    `namespaces(node).nodes()` / `attribute_nodes` yield is a namespace / attribute child of `p`. -/
+theorem C07_all_children {t : Tree} {p : Path} (h : Valid t p) :
+    allChildrenPaths t p = rawChildPaths t p ∧
+    allChildrenPaths t p = (allPre t).filter (fun q => parent q == some p) ∧
+    (allChildrenPaths t p).Nodup ∧
+    (allChildrenPaths t p).Pairwise (fun a b => docLt a b = true) ∧
+    allChildrenPaths t p = abnormalChildrenPaths t p ++ children t p ∧
+    attributesNodes t p = attributeNodes t p ∧
+    namespaceNodes t p ++ attributeNodes t p <+: allChildrenPaths t p ∧
+    (∀ q ∈ namespaceNodes t p, categoryAt t q = .namespace ∧ parent q = some p ∧ Valid t q) ∧
+    (∀ q ∈ attributeNodes t p, categoryAt t q = .attribute ∧ parent q = some p ∧ Valid t q) := by
+  refine ⟨allChildrenPaths_eq t p, allChildrenPaths_spec h, ?_, ?_, allChildrenPaths_split t p,
+    attributesNodes_eq t p, nsAttr_prefix t p, fun _ hq => namespaceNodes_sound h hq,
+    fun _ hq => attributeNodes_sound h hq⟩
+  · rw [allChildrenPaths_eq]; exact rawChildPaths_nodup t p
+  · rw [allChildrenPaths_eq]; exact rawChildPaths_sorted h
+
+/-- ⟦C07_all_children_partition⟧ **The partition of the raw child list** under the `StructValid` ordering of
+    the children of `p` (namespaces, attributes, normal): `all_children` = namespace nodes ++ attribute
+    nodes ++ children, in document order; the three lists are pairwise disjoint and without repetition
+    (the concatenation has no duplicates), so every raw child — every normal child in particular — occurs
+    in it exactly once; `abnormal_children` = namespace nodes ++ attribute nodes; and each of the three
+    is the list of the raw children of its category. -/
+theorem C07_all_children_partition {t : Tree} {p : Path} (h : Valid t p) (hs : kidsSorted (subAt t p).kids) :
+    allChildrenPaths t p = namespaceNodes t p ++ attributeNodes t p ++ children t p ∧
+    (namespaceNodes t p ++ attributeNodes t p ++ children t p).Nodup ∧
+    (namespaceNodes t p ++ attributeNodes t p ++ children t p).Pairwise (fun a b => docLt a b = true) ∧
+    (∀ q ∈ rawChildPaths t p, (namespaceNodes t p ++ attributeNodes t p ++ children t p).count q = 1) ∧
+    abnormalChildrenPaths t p = namespaceNodes t p ++ attributeNodes t p ∧
+    namespaceNodes t p = (rawChildPaths t p).filter (fun q => categoryAt t q == .namespace) ∧
+    attributeNodes t p = (rawChildPaths t p).filter (fun q => categoryAt t q == .attribute) ∧
+    children t p = (rawChildPaths t p).filter (isNormalAt t) := by
+  have e := allChildrenPaths_partition hs
+  have e' : namespaceNodes t p ++ attributeNodes t p ++ children t p = rawChildPaths t p := by
+    rw [← e, allChildrenPaths_eq]
+  refine ⟨e, ?_, ?_, ?_, abnormalChildrenPaths_eq hs, namespaceNodes_eq h hs, attributeNodes_eq h hs,
+    children_eq_sorted h hs⟩
+  · rw [e']; exact rawChildPaths_nodup t p
+  · rw [e']; exact rawChildPaths_sorted h
+  · intro q hq
+    rw [e']
+    have h1 := List.nodup_iff_count.mp (rawChildPaths_nodup t p) q
+    have h2 := List.count_pos_iff.mpr hq
+    omega
+
+/-- Non-vacuity on `exTree` (`<a xmlns:p=".." x=".."><b><c/></b>text<d/></a>`): the lists at the element `[0]`;
+    and an ILL-ordered node (a text before an attribute before a namespace node) where the partition fails
+    but `C07_all_children` still holds: the adapters stop at the first child of another category. -/
+example : allChildrenPaths exTree [0] = [[0, 0], [0, 1], [0, 2], [0, 3], [0, 4]] ∧
+    namespaceNodes exTree [0] = [[0, 0]] ∧ attributesNodes exTree [0] = [[0, 1]] ∧
+    abnormalChildrenPaths exTree [0] = [[0, 0], [0, 1]] ∧ children exTree [0] = [[0, 2], [0, 3], [0, 4]] := by decide
+example : let t : Tree := .node (.element 2) [.node (.text ['x']) [], .node (.attribute 3 []) [], .node (.namespace 2 2) []]
+    ¬ kidsSorted (subAt t []).kids ∧ namespaceNodes t [] = [] ∧ attributeNodes t [] = [] ∧
+    abnormalChildrenPaths t [] = [] ∧ children t [] = [[0], [1], [2]] ∧ allChildrenPaths t [] = [[0], [1], [2]] := by decide
+
+/-! ## The remaining restatements for reachable trees (extended API histories, `Forest.XCall`) -/
+
+/-- ⟦C07_reachable_child_lists⟧ **The child-list accessors, for every node of every reachable tree**:
+    `all_children` = `namespaces(node).nodes()` ++ `attribute_nodes(node)` ++ `children(node)`, in document
+    order, no node twice — the three lists are disjoint and every raw child occurs exactly once;
+    `abnormal_children` is the first two; each list is the list of the raw children of its category. -/
+theorem C07_reachable_child_lists (env : Env) (cs : List Forest.XCall) (hw : ∀ c ∈ cs, c.wellKinded) :
+    ∀ r ∈ ((⟨Forest.init, env⟩ : Store).xrun cs).forest.roots, ∀ p : Path, Valid r.erase p →
+      allChildrenPaths r.erase p = namespaceNodes r.erase p ++ attributeNodes r.erase p ++ children r.erase p ∧
+      (namespaceNodes r.erase p ++ attributeNodes r.erase p ++ children r.erase p).Nodup ∧
+      (namespaceNodes r.erase p ++ attributeNodes r.erase p ++ children r.erase p).Pairwise
+        (fun a b => docLt a b = true) ∧
+      (∀ q ∈ rawChildPaths r.erase p,
+        (namespaceNodes r.erase p ++ attributeNodes r.erase p ++ children r.erase p).count q = 1) ∧
+      abnormalChildrenPaths r.erase p = namespaceNodes r.erase p ++ attributeNodes r.erase p ∧
+      attributesNodes r.erase p = attributeNodes r.erase p ∧
+      namespaceNodes r.erase p = (rawChildPaths r.erase p).filter (fun q => categoryAt r.erase q == .namespace) ∧
+      attributeNodes r.erase p = (rawChildPaths r.erase p).filter (fun q => categoryAt r.erase q == .attribute) ∧
+      children r.erase p = (rawChildPaths r.erase p).filter (isNormalAt r.erase) := by
+  intro r hr p hp
+  obtain ⟨a1, a2, a3, a4, a5, a6, a7, a8⟩ :=
+    C07_all_children_partition hp ((C07_inv_wf _ (Reach.inv_reachable env cs hw) r hr).2 p)
+  exact ⟨a1, a2, a3, a4, a5, attributesNodes_eq _ _, a6, a7, a8⟩
+
+/-- ⟦C07_reachable_axis_descendant_abnormal⟧ `axis(Descendant)` at an attribute / namespace node of a
+    reachable tree: nothing. -/
+theorem C07_reachable_axis_descendant_abnormal (env : Env) (cs : List Forest.XCall) (hw : ∀ c ∈ cs, c.wellKinded) :
+    ∀ r ∈ ((⟨Forest.init, env⟩ : Store).xrun cs).forest.roots, ∀ p : Path, Valid r.erase p →
+      isNormalAt r.erase p = false → axis r.erase .descendant p = [] :=
+  fun r hr _ hp hn => C07_axis_descendant_abnormal (C07_inv_wf _ (Reach.inv_reachable env cs hw) r hr).1 hp hn
+
+/-- ⟦C07_reachable_child_index⟧ `child_index(parent, child)` for every node `p` of every reachable
+    tree and EVERY `child`: `Some(i)` iff `child` is the `i`-th of `children(p)`, `None` when `p` is
+    not the parent of `child`. -/
+theorem C07_reachable_child_index (env : Env) (cs : List Forest.XCall) (hw : ∀ c ∈ cs, c.wellKinded) :
+    ∀ r ∈ ((⟨Forest.init, env⟩ : Store).xrun cs).forest.roots, ∀ p : Path, Valid r.erase p → ∀ child : Path,
+      (∀ i, childIndex r.erase p child = some i ↔ (children r.erase p)[i]? = some child) ∧
+      (parent child ≠ some p → childIndex r.erase p child = none) :=
+  fun r hr _ hp _ => C07_child_index (C07_inv_wf _ (Reach.inv_reachable env cs hw) r hr).1 hp
+
+/-- ⟦C07_reachable_document_element⟧ `document_element`, for every node of every reachable tree:
+    `Ok(c)` means `p` is a document node and `c` its first element child — and then `c` satisfies
+    `is_document_element` and `has_document_parent`; the two errors; it never panics. -/
+theorem C07_reachable_document_element (env : Env) (cs : List Forest.XCall) (hw : ∀ c ∈ cs, c.wellKinded) :
+    ∀ r ∈ ((⟨Forest.init, env⟩ : Store).xrun cs).forest.roots, ∀ p : Path, Valid r.erase p →
+      (∀ c, documentElement r.erase p = .ok c →
+        (valueAt r.erase p).isDocument = true ∧ c ∈ children r.erase p ∧ (valueAt r.erase c).isElement = true ∧
+        (∀ c' ∈ children r.erase p, docLt c' c = true → (valueAt r.erase c').isElement = false) ∧
+        isDocumentElement r.erase c = true ∧ hasDocumentParent r.erase c = true) ∧
+      (documentElement r.erase p = .err .notDocument ↔ (valueAt r.erase p).isDocument = false) ∧
+      (documentElement r.erase p = .err .noElementAtTopLevel ↔
+        (valueAt r.erase p).isDocument = true ∧ ∀ c ∈ children r.erase p, (valueAt r.erase c).isElement = false) ∧
+      documentElement r.erase p ≠ .panic := by
+  intro r hr p hp
+  have hwf := (C07_inv_wf _ (Reach.inv_reachable env cs hw) r hr).1
+  obtain ⟨d1, d2, d3, d4⟩ := C07_document_element hwf hp
+  refine ⟨fun c hc => ?_, d2, d3, d4⟩
+  obtain ⟨e1, e2, e3, e4⟩ := d1 c hc
+  exact ⟨e1, e2, e3, e4, C07_document_element_is hwf hp hc⟩
+
+/-- ⟦C07_reachable_is_document_element⟧ `has_document_parent` / `is_document_element`, for every non-root
+    node `p ++ [i]` of every reachable tree: the parent is a document node; resp. moreover the node is an
+    element among the children of that document node — and when it is the ONLY element child, it is what
+    `document_element(parent)` returns.  (At a root both are `false`: `C07_is_document_element`.) -/
+theorem C07_reachable_is_document_element (env : Env) (cs : List Forest.XCall) (hw : ∀ c ∈ cs, c.wellKinded) :
+    ∀ r ∈ ((⟨Forest.init, env⟩ : Store).xrun cs).forest.roots, ∀ (p : Path) (i : Nat), Valid r.erase (p ++ [i]) →
+      hasDocumentParent r.erase (p ++ [i]) = (valueAt r.erase p).isDocument ∧
+      (isDocumentElement r.erase (p ++ [i]) = true ↔
+        (valueAt r.erase p).isDocument = true ∧ (p ++ [i]) ∈ children r.erase p ∧
+        (valueAt r.erase (p ++ [i])).isElement = true) ∧
+      (isDocumentElement r.erase (p ++ [i]) = true →
+        (∀ c ∈ children r.erase p, (valueAt r.erase c).isElement = true → c = p ++ [i]) →
+        documentElement r.erase p = .ok (p ++ [i])) := by
+  intro r hr p i hp
+  have hwf := (C07_inv_wf _ (Reach.inv_reachable env cs hw) r hr).1
+  exact ⟨(C07_is_document_element hwf hp).1, (C07_is_document_element hwf hp).2.1,
+    fun hde hu => C07_is_document_element_unique hwf hp hde hu⟩
+
+/-- ⟦C07_reachable_edges_root⟧ The root-walk clauses of `C07_edges_next` / `_previous`, for every reachable
+    tree whose root is a normal node: from `Start(root)` the `NodeEdge::next` walk is exactly
+    `traverse(root)`, from `End(root)` the `previous` walk exactly `reverse_traverse(root)`, however long one
+    goes on stepping; and at every node `reverse_traverse` / `reverse_all_traverse` are `traverse` /
+    `all_traverse` reversed. -/
+theorem C07_reachable_edges_root (env : Env) (cs : List Forest.XCall) (hw : ∀ c ∈ cs, c.wellKinded) :
+    ∀ r ∈ ((⟨Forest.init, env⟩ : Store).xrun cs).forest.roots,
+      (isNormalAt r.erase [] = true → ∀ m : Nat,
+        edgeWalk (Edge.next r.erase) ((traverse r.erase []).length + m) (.start []) = traverse r.erase [] ∧
+        edgeWalk (Edge.previous r.erase) ((reverseTraverse r.erase []).length + m) (.stop []) =
+          reverseTraverse r.erase []) ∧
+      (∀ p : Path, reverseTraverse r.erase p = (traverse r.erase p).reverse ∧
+        reverseAllTraverse r.erase p = (allTraverse r.erase p).reverse) := by
+  intro r hr
+  have hwf := (C07_inv_wf _ (Reach.inv_reachable env cs hw) r hr).1
+  exact ⟨fun h0 m => ⟨edgeWalk_next_root hwf h0 m, edgeWalk_previous_root hwf h0 m⟩,
+    fun p => ⟨reverseTraverse_eq r.erase p, rfl⟩⟩
+
+/-- ⟦C07_reachable_level⟧ `level_order`, for every node of every reachable tree: the levels below the
+    node with their `End` markers (the fuel is adequate, levels from the node count on are empty), and every
+    level below the start node holds normal nodes of the tree only. -/
+theorem C07_reachable_level (env : Env) (cs : List Forest.XCall) (hw : ∀ c ∈ cs, c.wellKinded) :
+    ∀ r ∈ ((⟨Forest.init, env⟩ : Store).xrun cs).forest.roots, ∀ p : Path, Valid r.erase p →
+      levelOrder r.erase p = withEnds p (bfsOrder r.erase p) ∧
+      (∀ k, r.erase.size ≤ k → levelAt r.erase p k = []) ∧
+      (∀ k, ∀ q ∈ levelAt r.erase p (k + 1), Valid r.erase q ∧ isNormalAt r.erase q = true) := by
+  intro r hr p hp
+  exact ⟨(C07_level hp).1, (C07_level hp).2, levelAt_normal_only (C07_inv_wf _ (Reach.inv_reachable env cs hw) r hr).1 hp⟩
+
+/-! ## FULL histories (`PCall`): parses of arbitrary texts interleaved with extended API calls
+
+  `(PStore.init env).run cs`: the store `Xot::new()` with the vocabulary `env`, after the steps `cs`, each an
+  extended API call (`.api c`) or `Xot::parse` / `parse_fragment` of ANY text (`.parse m text`; a rejected text
+  leaves the forest alone).  `C04_reach_full` (Props/C04; here `PStore.fph_run_inv`): the forest has `Forest.Inv`.
+  First the theorems of the last section of this file (`C07_reachable_wf` … `C07_reachable_edges`), word for
+  word, then the restatements above. -/
+
+/-- ⟦C07_reachable_wf_full⟧ Both structural hypotheses of this file hold of every parentless tree of every
+    reachable forest: `wf`, and `kidsSorted` at EVERY node. -/
+theorem C07_reachable_wf_full (env : Env) (cs : List PCall) (hw : ∀ c ∈ cs, c.wellKinded) :
+    ∀ r ∈ ((PStore.init env).run cs).forest.roots,
+      wf r.erase = true ∧ ∀ p : Path, kidsSorted (subAt r.erase p).kids :=
+  fun _ hr => ⟨Reach.wf_root (PStore.fph_run_inv cs (PStore.fph_init_inv env) hw) hr,
+    Reach.kidsSorted_root (PStore.fph_run_inv cs (PStore.fph_init_inv env) hw) hr⟩
+
+/-- ⟦C07_reachable_nodes_full⟧ Every live handle of a reachable forest is a node of one of its trees: it has a path `q` there, the
+    path is `Valid` in the erased tree and leads back to the handle.  (So "for all roots `r`, for all
+    `Valid` paths" below ranges over every live node of the store — and over nothing else:
+    `C04_traversals_live`.) -/
+theorem C07_reachable_nodes_full (env : Env) (cs : List PCall) (h : Nat)
+    (hl : ((PStore.init env).run cs).forest.isLive h = true) :
+    ∃ r ∈ ((PStore.init env).run cs).forest.roots, ∃ q : Path,
+      HTree.pathOf h r = some q ∧ Valid r.erase q ∧ HTree.handleAt r q = some h := by
+  obtain ⟨r, _, hr, q, hq⟩ := Forest.rootOf?_of_live hl
+  obtain ⟨s, hs, rfl⟩ := HTree.ftrav_pathOf_at? _ r q hq
+  exact ⟨r, hr, q, hq, (Reach.valid_erase_iff r q).mpr (by rw [hs]; rfl),
+    by simp [HTree.ftrav_handleAt_eq, hs]⟩
+
+/-- ⟦C07_reachable_partition_full⟧ **The partition law, for every node of every reachable tree.**  For a
+    normal node: ancestors, the node, descendants, preceding and following together are exactly the
+    normal nodes of its tree, each once; for an attribute or namespace node the four axes alone. -/
+theorem C07_reachable_partition_full (env : Env) (cs : List PCall) (hw : ∀ c ∈ cs, c.wellKinded) :
+    ∀ r ∈ ((PStore.init env).run cs).forest.roots, ∀ p : Path, Valid r.erase p →
+      (isNormalAt r.erase p = true →
+        (axis r.erase .ancestor p ++ (p :: axis r.erase .descendant p) ++ axis r.erase .preceding p ++
+          axis r.erase .following p).Perm (pre r.erase) ∧
+        (axis r.erase .ancestor p ++ (p :: axis r.erase .descendant p) ++ axis r.erase .preceding p ++
+          axis r.erase .following p).Nodup) ∧
+      (isNormalAt r.erase p = false →
+        (axis r.erase .ancestor p ++ axis r.erase .descendant p ++ axis r.erase .preceding p ++
+          axis r.erase .following p).Perm (pre r.erase) ∧
+        (axis r.erase .ancestor p ++ axis r.erase .descendant p ++ axis r.erase .preceding p ++
+          axis r.erase .following p).Nodup) := by
+  intro r hr p hp
+  have hwf := (C07_reachable_wf_full env cs hw r hr).1
+  exact ⟨fun hn => ⟨C07_partition hwf hp hn, C07_partition_disjoint hwf hp hn⟩,
+    fun hn => C07_partition_abnormal hwf hp hn⟩
+
+/-- ⟦C07_reachable_order_full⟧ **Document order, for every node of every reachable tree**: descendants and
+    following are the normal nodes below / after the node in document order, ancestors and preceding
+    the proper ancestors / the nodes before it that are not ancestors in REVERSE document order — as
+    equations with the document-order specifications, and as sortedness. -/
+theorem C07_reachable_order_full (env : Env) (cs : List PCall) (hw : ∀ c ∈ cs, c.wellKinded) :
+    ∀ r ∈ ((PStore.init env).run cs).forest.roots, ∀ p : Path, Valid r.erase p →
+      axis r.erase .descendantOrSelf p = (pre r.erase).filter (fun q => p.isPrefixOf q) ∧
+      axis r.erase .following p = (pre r.erase).filter (fun q => docLt p q && !p.isPrefixOf q) ∧
+      axis r.erase .preceding p = ((pre r.erase).filter (fun q => docLt q p && !q.isPrefixOf p)).reverse ∧
+      axis r.erase .ancestor p = ((pre r.erase).filter (fun q => q.isPrefixOf p && q != p)).reverse ∧
+      (axis r.erase .descendantOrSelf p).Pairwise (fun a b => docLt a b = true) ∧
+      (axis r.erase .following p).Pairwise (fun a b => docLt a b = true) ∧
+      (axis r.erase .ancestor p).Pairwise (fun a b => docLt b a = true) ∧
+      (axis r.erase .preceding p).Pairwise (fun a b => docLt b a = true) := by
+  intro r hr p hp
+  have hwf := (C07_reachable_wf_full env cs hw r hr).1
+  obtain ⟨o1, o2, o3, o4⟩ := C07_order hwf hp
+  exact ⟨(C07_descendants hp).1, (C07_following hp).1, (C07_preceding hwf hp).1, (C07_axis_ancestor hwf hp).1,
+    o1, o2, o3, o4⟩
+
+/-- ⟦C07_reachable_all_full⟧ **The `all_*` variants and the attribute axis, for every node of every reachable
+    tree**: the raw child list is namespace nodes ++ attribute nodes ++ children; `all_descendants` is
+    the node, then the subtrees of its namespace nodes, its attribute nodes, its children, in this
+    order, `all_traverse` likewise between `Start` and `End`; `attribute_nodes` are exactly the
+    attribute children in order; `next_sibling` / `previous_sibling` of ANY node (attribute and
+    namespace nodes included) is the nearest following / preceding sibling of its category. -/
+theorem C07_reachable_all_full (env : Env) (cs : List PCall) (hw : ∀ c ∈ cs, c.wellKinded) :
+    ∀ r ∈ ((PStore.init env).run cs).forest.roots, ∀ p : Path, Valid r.erase p →
+      (subAt r.erase p).kids =
+        (subAt r.erase p).namespaceNodes ++ (subAt r.erase p).attributeNodes ++ (subAt r.erase p).normalKids ∧
+      allDescendants r.erase p = p :: (allPreList 0
+        ((subAt r.erase p).namespaceNodes ++ (subAt r.erase p).attributeNodes ++
+          (subAt r.erase p).normalKids)).map (p ++ ·) ∧
+      allTraverse r.erase p = .start p :: ((rawEdgesList 0
+        ((subAt r.erase p).namespaceNodes ++ (subAt r.erase p).attributeNodes ++
+          (subAt r.erase p).normalKids)).map (Edge.mapPath (p ++ ·)) ++ [.stop p]) ∧
+      attributeNodes r.erase p = (rawChildPaths r.erase p).filter (fun q => categoryAt r.erase q == .attribute) ∧
+      (∀ i : Nat, Valid r.erase (p ++ [i]) →
+        nextSibling r.erase (p ++ [i]) = (axis r.erase .followingSibling (p ++ [i])).head? ∧
+        previousSibling r.erase (p ++ [i]) = (axis r.erase .precedingSibling (p ++ [i])).head?) := by
+  intro r hr p hp
+  have hs := (C07_reachable_wf_full env cs hw r hr).2 p
+  obtain ⟨a1, a2, a3⟩ := C07_all hs
+  exact ⟨a1, a2, a3, (C07_attribute_axis hp).2.2 hs, fun i hi => C07_next_previous_sibling_any hi hs⟩
+
+/-- ⟦C07_reachable_children_full⟧ **Children, for every node of every reachable tree**: `children` are the normal
+    nodes whose parent is the node, in document order, `first_child` / `last_child` its ends,
+    `reverse_children` its reverse, `child_index` the position in it; and every plain iterator from
+    the node yields normal nodes of the tree only. -/
+theorem C07_reachable_children_full (env : Env) (cs : List PCall) (hw : ∀ c ∈ cs, c.wellKinded) :
+    ∀ r ∈ ((PStore.init env).run cs).forest.roots, ∀ p : Path, Valid r.erase p →
+      children r.erase p = (pre r.erase).filter (fun q => parent q == some p) ∧
+      firstChild r.erase p = (children r.erase p).head? ∧
+      lastChild r.erase p = (children r.erase p).getLast? ∧
+      reverseChildren r.erase p = (children r.erase p).reverse ∧
+      (∀ child i, childIndex r.erase p child = some i ↔ (children r.erase p)[i]? = some child) ∧
+      (∀ q ∈ preceding r.erase p, Valid r.erase q ∧ isNormalAt r.erase q = true) ∧
+      (∀ q ∈ children r.erase p, Valid r.erase q ∧ isNormalAt r.erase q = true) ∧
+      (∀ q ∈ axis r.erase .ancestor p, Valid r.erase q ∧ isNormalAt r.erase q = true) := by
+  intro r hr p hp
+  have hwf := (C07_reachable_wf_full env cs hw r hr).1
+  obtain ⟨c1, _, c3, c4⟩ := C07_children hwf hp
+  obtain ⟨_, _, n3, _, n5, n6, _⟩ := C07_plain_normal hwf hp
+  exact ⟨c1, c3, c4, (C07_reverse_children hp).2 hwf, fun child i => (C07_child_index hwf hp).1 i, n3, n5, n6⟩
+
+/-- ⟦C07_reachable_edges_full⟧ **`NodeEdge::next` / `previous`, for every normal node of every reachable tree**:
+    the walks enumerate `traverse` / `reverse_traverse` and continue with the successor of `End` /
+    the predecessor of `Start`. -/
+theorem C07_reachable_edges_full (env : Env) (cs : List PCall) (hw : ∀ c ∈ cs, c.wellKinded) :
+    ∀ r ∈ ((PStore.init env).run cs).forest.roots, ∀ p : Path, Valid r.erase p →
+      isNormalAt r.erase p = true → ∀ m : Nat,
+      edgeWalk (Edge.next r.erase) ((traverse r.erase p).length + m) (.start p) =
+        traverse r.erase p ++ contN r.erase m (Edge.next r.erase (.stop p)) ∧
+      edgeWalk (Edge.previous r.erase) ((reverseTraverse r.erase p).length + m) (.stop p) =
+        reverseTraverse r.erase p ++ contP r.erase m (Edge.previous r.erase (.start p)) := by
+  intro r hr p hp hn m
+  have hwf := (C07_reachable_wf_full env cs hw r hr).1
+  exact ⟨(C07_edges_next hwf hp hn m).1, (C07_edges_previous hwf hp hn m).1⟩
+
+/-- ⟦C07_reachable_child_lists_full⟧ **The child-list accessors, for every node of every reachable tree** (full histories):
+    `all_children` = `namespaces(node).nodes()` ++ `attribute_nodes(node)` ++ `children(node)`, in document
+    order, no node twice — the three lists are disjoint and every raw child occurs exactly once;
+    `abnormal_children` is the first two; each list is the list of the raw children of its category. -/
+theorem C07_reachable_child_lists_full (env : Env) (cs : List PCall) (hw : ∀ c ∈ cs, c.wellKinded) :
+    ∀ r ∈ ((PStore.init env).run cs).forest.roots, ∀ p : Path, Valid r.erase p →
+      allChildrenPaths r.erase p = namespaceNodes r.erase p ++ attributeNodes r.erase p ++ children r.erase p ∧
+      (namespaceNodes r.erase p ++ attributeNodes r.erase p ++ children r.erase p).Nodup ∧
+      (namespaceNodes r.erase p ++ attributeNodes r.erase p ++ children r.erase p).Pairwise
+        (fun a b => docLt a b = true) ∧
+      (∀ q ∈ rawChildPaths r.erase p,
+        (namespaceNodes r.erase p ++ attributeNodes r.erase p ++ children r.erase p).count q = 1) ∧
+      abnormalChildrenPaths r.erase p = namespaceNodes r.erase p ++ attributeNodes r.erase p ∧
+      attributesNodes r.erase p = attributeNodes r.erase p ∧
+      namespaceNodes r.erase p = (rawChildPaths r.erase p).filter (fun q => categoryAt r.erase q == .namespace) ∧
+      attributeNodes r.erase p = (rawChildPaths r.erase p).filter (fun q => categoryAt r.erase q == .attribute) ∧
+      children r.erase p = (rawChildPaths r.erase p).filter (isNormalAt r.erase) := by
+  intro r hr p hp
+  obtain ⟨a1, a2, a3, a4, a5, a6, a7, a8⟩ :=
+    C07_all_children_partition hp ((C07_inv_wf _ (PStore.fph_run_inv cs (PStore.fph_init_inv env) hw) r hr).2 p)
+  exact ⟨a1, a2, a3, a4, a5, attributesNodes_eq _ _, a6, a7, a8⟩
+
+/-- ⟦C07_reachable_axis_descendant_abnormal_full⟧ `axis(Descendant)` at an attribute / namespace node of a
+    reachable tree (full histories): nothing. -/
+theorem C07_reachable_axis_descendant_abnormal_full (env : Env) (cs : List PCall) (hw : ∀ c ∈ cs, c.wellKinded) :
+    ∀ r ∈ ((PStore.init env).run cs).forest.roots, ∀ p : Path, Valid r.erase p →
+      isNormalAt r.erase p = false → axis r.erase .descendant p = [] :=
+  fun r hr _ hp hn => C07_axis_descendant_abnormal (C07_inv_wf _ (PStore.fph_run_inv cs (PStore.fph_init_inv env) hw) r hr).1 hp hn
+
+/-- ⟦C07_reachable_child_index_full⟧ `child_index(parent, child)` for every node `p` of every reachable
+    tree (full histories) and EVERY `child`: `Some(i)` iff `child` is the `i`-th of `children(p)`, `None` when `p` is
+    not the parent of `child`. -/
+theorem C07_reachable_child_index_full (env : Env) (cs : List PCall) (hw : ∀ c ∈ cs, c.wellKinded) :
+    ∀ r ∈ ((PStore.init env).run cs).forest.roots, ∀ p : Path, Valid r.erase p → ∀ child : Path,
+      (∀ i, childIndex r.erase p child = some i ↔ (children r.erase p)[i]? = some child) ∧
+      (parent child ≠ some p → childIndex r.erase p child = none) :=
+  fun r hr _ hp _ => C07_child_index (C07_inv_wf _ (PStore.fph_run_inv cs (PStore.fph_init_inv env) hw) r hr).1 hp
+
+/-- ⟦C07_reachable_document_element_full⟧ `document_element`, for every node of every reachable tree (full histories):
+    `Ok(c)` means `p` is a document node and `c` its first element child — and then `c` satisfies
+    `is_document_element` and `has_document_parent`; the two errors; it never panics. -/
+theorem C07_reachable_document_element_full (env : Env) (cs : List PCall) (hw : ∀ c ∈ cs, c.wellKinded) :
+    ∀ r ∈ ((PStore.init env).run cs).forest.roots, ∀ p : Path, Valid r.erase p →
+      (∀ c, documentElement r.erase p = .ok c →
+        (valueAt r.erase p).isDocument = true ∧ c ∈ children r.erase p ∧ (valueAt r.erase c).isElement = true ∧
+        (∀ c' ∈ children r.erase p, docLt c' c = true → (valueAt r.erase c').isElement = false) ∧
+        isDocumentElement r.erase c = true ∧ hasDocumentParent r.erase c = true) ∧
+      (documentElement r.erase p = .err .notDocument ↔ (valueAt r.erase p).isDocument = false) ∧
+      (documentElement r.erase p = .err .noElementAtTopLevel ↔
+        (valueAt r.erase p).isDocument = true ∧ ∀ c ∈ children r.erase p, (valueAt r.erase c).isElement = false) ∧
+      documentElement r.erase p ≠ .panic := by
+  intro r hr p hp
+  have hwf := (C07_inv_wf _ (PStore.fph_run_inv cs (PStore.fph_init_inv env) hw) r hr).1
+  obtain ⟨d1, d2, d3, d4⟩ := C07_document_element hwf hp
+  refine ⟨fun c hc => ?_, d2, d3, d4⟩
+  obtain ⟨e1, e2, e3, e4⟩ := d1 c hc
+  exact ⟨e1, e2, e3, e4, C07_document_element_is hwf hp hc⟩
+
+/-- ⟦C07_reachable_is_document_element_full⟧ `has_document_parent` / `is_document_element`, for every non-root
+    node `p ++ [i]` of every reachable tree (full histories): the parent is a document node; resp. moreover the node is an
+    element among the children of that document node — and when it is the ONLY element child, it is what
+    `document_element(parent)` returns.  (At a root both are `false`: `C07_is_document_element`.) -/
+theorem C07_reachable_is_document_element_full (env : Env) (cs : List PCall) (hw : ∀ c ∈ cs, c.wellKinded) :
+    ∀ r ∈ ((PStore.init env).run cs).forest.roots, ∀ (p : Path) (i : Nat), Valid r.erase (p ++ [i]) →
+      hasDocumentParent r.erase (p ++ [i]) = (valueAt r.erase p).isDocument ∧
+      (isDocumentElement r.erase (p ++ [i]) = true ↔
+        (valueAt r.erase p).isDocument = true ∧ (p ++ [i]) ∈ children r.erase p ∧
+        (valueAt r.erase (p ++ [i])).isElement = true) ∧
+      (isDocumentElement r.erase (p ++ [i]) = true →
+        (∀ c ∈ children r.erase p, (valueAt r.erase c).isElement = true → c = p ++ [i]) →
+        documentElement r.erase p = .ok (p ++ [i])) := by
+  intro r hr p i hp
+  have hwf := (C07_inv_wf _ (PStore.fph_run_inv cs (PStore.fph_init_inv env) hw) r hr).1
+  exact ⟨(C07_is_document_element hwf hp).1, (C07_is_document_element hwf hp).2.1,
+    fun hde hu => C07_is_document_element_unique hwf hp hde hu⟩
+
+/-- ⟦C07_reachable_edges_root_full⟧ The root-walk clauses of `C07_edges_next` / `_previous`, for every reachable
+    tree (full histories) whose root is a normal node: from `Start(root)` the `NodeEdge::next` walk is exactly
+    `traverse(root)`, from `End(root)` the `previous` walk exactly `reverse_traverse(root)`, however long one
+    goes on stepping; and at every node `reverse_traverse` / `reverse_all_traverse` are `traverse` /
+    `all_traverse` reversed. -/
+theorem C07_reachable_edges_root_full (env : Env) (cs : List PCall) (hw : ∀ c ∈ cs, c.wellKinded) :
+    ∀ r ∈ ((PStore.init env).run cs).forest.roots,
+      (isNormalAt r.erase [] = true → ∀ m : Nat,
+        edgeWalk (Edge.next r.erase) ((traverse r.erase []).length + m) (.start []) = traverse r.erase [] ∧
+        edgeWalk (Edge.previous r.erase) ((reverseTraverse r.erase []).length + m) (.stop []) =
+          reverseTraverse r.erase []) ∧
+      (∀ p : Path, reverseTraverse r.erase p = (traverse r.erase p).reverse ∧
+        reverseAllTraverse r.erase p = (allTraverse r.erase p).reverse) := by
+  intro r hr
+  have hwf := (C07_inv_wf _ (PStore.fph_run_inv cs (PStore.fph_init_inv env) hw) r hr).1
+  exact ⟨fun h0 m => ⟨edgeWalk_next_root hwf h0 m, edgeWalk_previous_root hwf h0 m⟩,
+    fun p => ⟨reverseTraverse_eq r.erase p, rfl⟩⟩
+
+/-- ⟦C07_reachable_level_full⟧ `level_order`, for every node of every reachable tree (full histories): the levels below the
+    node with their `End` markers (the fuel is adequate, levels from the node count on are empty), and every
+    level below the start node holds normal nodes of the tree only. -/
+theorem C07_reachable_level_full (env : Env) (cs : List PCall) (hw : ∀ c ∈ cs, c.wellKinded) :
+    ∀ r ∈ ((PStore.init env).run cs).forest.roots, ∀ p : Path, Valid r.erase p →
+      levelOrder r.erase p = withEnds p (bfsOrder r.erase p) ∧
+      (∀ k, r.erase.size ≤ k → levelAt r.erase p k = []) ∧
+      (∀ k, ∀ q ∈ levelAt r.erase p (k + 1), Valid r.erase q ∧ isNormalAt r.erase q = true) := by
+  intro r hr p hp
+  exact ⟨(C07_level hp).1, (C07_level hp).2, levelAt_normal_only (C07_inv_wf _ (PStore.fph_run_inv cs (PStore.fph_init_inv env) hw) r hr).1 hp⟩
+
+/-! ### Non-vacuity of the `_full` theorems: parse a text, then edit
+
+  `Xot::new()`; `parse("<r xmlns:p=\"urn:a\" a=\"1\" b=\"2\"><p:a>t</p:a><!--c--></r>")`; `new_element`; `append` it to
+  `r`.  One tree: the document 0 with `r` = 1 holding the namespace node 2, the attribute nodes 3 and 4, `p:a` = 5
+  (text 6), the comment 7 and the appended element 8. -/
+
+def c07FullEnv : Env :=
+  { namespaces := [[], xmlNamespaceUri], prefixes := [[], ['x', 'm', 'l']],
+    names := [(['s', 'p', 'a', 'c', 'e'], 1), (['i', 'd'], 1)] }
+def c07FullCalls : List PCall :=
+  [.parse .document "<r xmlns:p=\"urn:a\" a=\"1\" b=\"2\"><p:a>t</p:a><!--c--></r>".toList,
+   .api (.newNode (.element 3)), .api (.call (.append 1 8))]
+def c07FullRoot : HTree :=
+  .node 0 .document [.node 1 (.element 2) [.node 2 (.namespace 2 2) [], .node 3 (.attribute 3 ['1']) [],
+    .node 4 (.attribute 4 ['2']) [], .node 5 (.element 5) [.node 6 (.text ['t']) []], .node 7 (.comment ['c']) [],
+    .node 8 (.element 3) []]]
+theorem c07FullCalls_wellKinded : ∀ c ∈ c07FullCalls, c.wellKinded := by decide
+theorem c07FullRoot_mem : c07FullRoot ∈ ((PStore.init c07FullEnv).run c07FullCalls).forest.roots := by
+  have : ((PStore.init c07FullEnv).run c07FullCalls).forest.roots = [c07FullRoot] := by decide +kernel
+  rw [this]; exact List.mem_singleton.mpr rfl
+
+example : wf c07FullRoot.erase = true ∧ kidsSorted (subAt c07FullRoot.erase [0]).kids :=
+  ⟨(C07_reachable_wf_full _ _ c07FullCalls_wellKinded _ c07FullRoot_mem).1,
+   (C07_reachable_wf_full _ _ c07FullCalls_wellKinded _ c07FullRoot_mem).2 [0]⟩
+example : Valid c07FullRoot.erase [0] ∧ Valid c07FullRoot.erase [0, 3] ∧ isNormalAt c07FullRoot.erase [0, 3] = true ∧
+    Valid c07FullRoot.erase [0, 1] ∧ isNormalAt c07FullRoot.erase [0, 1] = false ∧ isNormalAt c07FullRoot.erase [] = true := by
+  decide
+example : allChildrenPaths c07FullRoot.erase [0] =
+    namespaceNodes c07FullRoot.erase [0] ++ attributeNodes c07FullRoot.erase [0] ++ children c07FullRoot.erase [0] :=
+  (C07_reachable_child_lists_full _ _ c07FullCalls_wellKinded _ c07FullRoot_mem [0] (by decide)).1
+example : namespaceNodes c07FullRoot.erase [0] = [[0, 0]] ∧ attributesNodes c07FullRoot.erase [0] = [[0, 1], [0, 2]] ∧
+    children c07FullRoot.erase [0] = [[0, 3], [0, 4], [0, 5]] ∧ abnormalChildrenPaths c07FullRoot.erase [0] = [[0, 0], [0, 1], [0, 2]] ∧
+    axis c07FullRoot.erase .descendant [0, 1] = [] ∧ axis c07FullRoot.erase .following [0, 1] = [[0, 3], [0, 3, 0], [0, 4], [0, 5]] ∧
+    documentElement c07FullRoot.erase [] = .ok [0] ∧ isDocumentElement c07FullRoot.erase [0] = true ∧
+    childIndex c07FullRoot.erase [0] [0, 4] = some 1 ∧ childIndex c07FullRoot.erase [0] [0, 1] = none ∧
+    levelOrder c07FullRoot.erase [0] = [.node [0], .stop, .node [0, 3], .node [0, 4], .node [0, 5], .stop, .node [0, 3, 0], .stop] := by
+  decide
+example : (axis c07FullRoot.erase .ancestor [0, 3] ++ ([0, 3] :: axis c07FullRoot.erase .descendant [0, 3]) ++
+    axis c07FullRoot.erase .preceding [0, 3] ++ axis c07FullRoot.erase .following [0, 3]).Perm (pre c07FullRoot.erase) :=
+  ((C07_reachable_partition_full _ _ c07FullCalls_wellKinded _ c07FullRoot_mem [0, 3] (by decide)).1 (by decide)).1
+/-- The restatements over `Forest.XCall` histories at the 16-step history of Props/C04 (`Reach.exCalls`, its tree
+    `<e xmlns:p=".." xmlns:n0=".."><e xmlns:n0="..">x</e></e>`). -/
+example : allChildrenPaths Reach.exRoot.erase [] =
+    namespaceNodes Reach.exRoot.erase [] ++ attributeNodes Reach.exRoot.erase [] ++ children Reach.exRoot.erase [] :=
+  (C07_reachable_child_lists _ _ Reach.exCalls_wellKinded _ Reach.exRoot_mem [] (by decide)).1
+example : namespaceNodes Reach.exRoot.erase [] = [[0], [1]] ∧ children Reach.exRoot.erase [] = [[2]] ∧
+    axis Reach.exRoot.erase .descendant [1] = [] ∧ isNormalAt Reach.exRoot.erase [] = true := by decide
 
 end XotModel.Props
 
